@@ -254,10 +254,14 @@ fn dfs_turn(ctx: &mut LCtx, n: &LNode, seen: &mut FxSet<LKey>) {
 }
 
 /// E1-style: every root of a family, one full turn, in lock-step with its three images.
-pub fn run_family(prop: &str, fam: &Family, deadline: Option<Instant>) -> FamilyResult {
+/// `orbit_reduce`: the family is closed under both symmetries (every image of a root is itself a root of the family), so
+/// only the canonical representative of each orbit {x, m(x), s(x), ms(x)} is used as primary (a lock-step run from x is the
+/// same four games as a lock-step run from any of its images; the comparison is symmetric).
+pub fn run_family(prop: &str, fam: &Family, deadline: Option<Instant>, orbit_reduce: bool) -> FamilyResult {
     let t0 = Instant::now();
     let skipped = AtomicU64::new(0);
-    let fam_name = format!("{} — in lock-step with mirror, swap and mirror+swap images", fam.name);
+    let non_canonical = AtomicU64::new(0);
+    let fam_name = format!("{} — in lock-step with mirror, swap and mirror+swap images{}", fam.name, if orbit_reduce { " (one primary per symmetry orbit: the family is closed under the symmetries)" } else { "" });
     let stats = (0..fam.n)
         .into_par_iter()
         .fold(Stats::default, |acc, idx| {
@@ -274,6 +278,13 @@ pub fn run_family(prop: &str, fam: &Family, deadline: Option<Instant>) -> Family
                 Some(x) => x,
                 None => return acc,
             };
+            if orbit_reduce {
+                let me = (board, gold);
+                if TRS.iter().any(|t| (t.board(&board), t.side(gold)) < me) {
+                    non_canonical.fetch_add(1, Ordering::Relaxed);
+                    return acc;
+                }
+            }
             let mut ctx = LCtx { prop, explorer: "E1x4", family: fam_name.clone(), idx, root_board: board, root_gold: gold, config: serde_json::Value::Null, stats: Stats::default(), query: "", path: vec![] };
             let r = catch_unwind(AssertUnwindSafe(|| {
                 let n = root_lnode(&board, gold);
@@ -292,6 +303,10 @@ pub fn run_family(prop: &str, fam: &Family, deadline: Option<Instant>) -> Family
         })
         .reduce(Stats::default, Stats::merge);
     let sk = skipped.load(Ordering::Relaxed);
+    let mut stats = stats;
+    if orbit_reduce {
+        stats.add("c11_roots_covered_as_image_of_the_orbit_representative", non_canonical.load(Ordering::Relaxed));
+    }
     FamilyResult { explorer: "E1x4".into(), family: fam_name, complete: sk == 0 && !report::stopped(), note: if sk > 0 { format!("wall cap hit: {} root indices not explored (family NOT complete)", sk) } else { String::new() }, stats, wall_s: t0.elapsed().as_secs_f64() }
 }
 
